@@ -4,7 +4,7 @@
     executable instance Lib/Pda.v (Gallina SHA-256 + Ed25519 point test) is compared with
     `Pubkey::try_find_program_address` on every run (partial: not a theorem about the
     curve25519 / sha2 crates). *)
-From SplVerif Require Import Lib.Base Lib.Sha256 Lib.PdaSpec Resolution.Seeds Resolution.SeedsProofs Resolution.Account Resolution.Proofs.
+From SplVerif Require Import Lib.Base Lib.Sha256 Lib.PdaSpec Resolution.Seeds Resolution.SeedsProofs Resolution.Account Resolution.Proofs Resolution.Prefix.
 Local Open Scope N_scope.
 
 Theorem C05_no_panic : forall find_pda e ix pid get, length (e_cfg e) = 32%nat ->
@@ -116,3 +116,15 @@ Example C05_nonvacuous :
   let get := fun _ : N => Some (zeros 32, None) in
   is_err (resolve fp e [] (zeros 32) get) = true /\ length (e_cfg e) = 32%nat.
 Proof. cbv zeta. split; vm_compute; reflexivity. Qed.
+
+(** "instruction data / account data of any length": a config can only address bytes below
+    255 + 255, so whatever lies beyond byte 510 of the instruction data or of an account's data --
+    kilobytes or gigabytes -- cannot influence the result.  [same_prefix d d']: equal, or sharing a
+    prefix of at least 510 bytes; [getter_rel]: same keys, data related by [same_prefix] *)
+Theorem C05_only_the_first_510_bytes_matter : forall find_pda e ix ix' pid g g',
+  same_prefix ix ix' -> getter_rel g g' ->
+  resolve find_pda e ix pid g = resolve find_pda e ix' pid g'.
+Proof. exact resolve_prefix_only. Qed.
+Example C05_prefix_nonvacuous :
+  same_prefix (zeros 510 ++ [x01]) (zeros 510 ++ [x02; x03]) /\ getter_rel (fun _ => None) (fun _ => None).
+Proof. split; [right; exists (zeros 510), [x01], [x02; x03]; repeat split; vm_compute; discriminate|intros i; exact I]. Qed.
